@@ -1188,6 +1188,9 @@ impl ContinuityStreamCache {
             None
         };
 
+        #[cfg(rip_verif)]
+        rip_kernel::verif::point("compile.window.head_read");
+
         let mut next_message_seq: Option<u64> = None;
         let mut last_seq_seen = anchor_seq;
         let boundary_pos: u64;
